@@ -336,6 +336,14 @@ def MachineOf.check (m : MachineOf (Option Opcode)) : Option (MachineOf Opcode) 
 /-- `Jsoner` of a loaded machine: `val.Op_get_name()` on a nil entry is a nil dereference (`none`) -/
 def jsonerL (m : LoadedMachine) : Option MachineJson := m.check.map jsoner
 
+/-- executable form of `ResolvableOp` (see `resolvableOpB_iff`) -/
+def resolvableOpB (reg0 : Registry) (op : Opcode) : Bool :=
+  reg0.ops.contains op ||
+    (!reg0.names.contains op.name &&
+      match reg0.fams.find? (·.matchName op.name) with
+      | some f => f.create op.name == some op
+      | none => false)
+
 /-! ## bondmachine.Bondmachine -/
 
 structure Bond where
